@@ -135,6 +135,124 @@ package patchvalidator
 //@   ensures [value] err == nil ==> required == entry.(map[string]interface{})
 
 // ---------------------------------------------------------------------------
-// dispatch
+// public keys
+
+// the member rule of a key object: type and id present, exactly one of publicKeyJwk /
+// publicKeyBase58, nothing else except purposes. The function builds its tables from slice
+// literals with nested constant-length loops; its contract is checked by the bounded stand-in
+// bounded/c13_keyprops (every presence pattern of the five known and two unknown members) and
+// is an assumption of the proofs below.
+//@ spec func propsOK(pk document.PublicKey) bool =
+//@     has(pk, "type") && has(pk, "id") && (has(pk, "publicKeyJwk") != has(pk, "publicKeyBase58")) &&
+//@     (forall k string :: has(pk, k) ==> k == "type" || k == "id" || k == "purposes" || k == "publicKeyJwk" || k == "publicKeyBase58")
+//
+//@ func validatePublicKeyProperties(pubKey) (err)
+//@   pure
+//@   trusted "bounded: checked exhaustively over member-presence patterns by bounded/c13_keyprops, not proved"
+//@   ensures [iff] (err == nil) == propsOK(pubKey)
+
+//@ spec func jwkOf(pk document.PublicKey) document.JWK =
+//@     ite(typeis(pk["publicKeyJwk"], map[string]interface{}), document.JWK(pk["publicKeyJwk"].(map[string]interface{})), zeroOf(0, document.JWK))
+// usable key material: a well-formed JWK, or base58 material for a type other than JsonWebKey2020
+//@ spec func materialOK(pk document.PublicKey) bool =
+//@     (jwkOf(pk) != nil && document.docJWKValid(jwkOf(pk))) ||
+//@     (document.strEntry(pk, "publicKeyBase58") != "" && document.strEntry(pk, "type") != "JsonWebKey2020")
+//@ spec func keyOK(pk document.PublicKey) bool =
+//@     validatePublicKeyProperties(pk) == nil && idOK(document.strEntry(pk, "id")) && validateKeyPurposes(pk) == nil &&
+//@     validateKeyTypePurpose(pk) && materialOK(pk)
+//
+//@ func validatePublicKeys(pubKeys) (err)
+//@   pure
+//@   ensures [accepts-only-valid] err == nil ==> (forall i int :: 0 <= i && i < len(pubKeys) ==> keyOK(pubKeys[i]))
+//@   ensures [accepts-only-distinct] err == nil ==> (forall i int, j int :: 0 <= i && i < j && j < len(pubKeys) ==> document.strEntry(pubKeys[i], "id") != document.strEntry(pubKeys[j], "id"))
+//@   ensures [refuses-only-invalid] err != nil ==> !((forall i int :: 0 <= i && i < len(pubKeys) ==> keyOK(pubKeys[i])) &&
+//@        (forall i int, j int :: 0 <= i && i < j && j < len(pubKeys) ==> document.strEntry(pubKeys[i], "id") != document.strEntry(pubKeys[j], "id")))
+//@   loop 0 invariant [all] forall j int :: 0 <= j && j < $k ==> keyOK(pubKeys[j])
+//@   loop 0 invariant [distinct] forall a int, b int :: 0 <= a && a < b && b < $k ==> document.strEntry(pubKeys[a], "id") != document.strEntry(pubKeys[b], "id")
+//@   loop 0 invariant [ids] forall s string :: has(ids, s) == (exists a int :: 0 <= a && a < $k && document.strEntry(pubKeys[a], "id") == s)
+//@   loop 0 invariant [nonnil] ids != nil
+
+// ---------------------------------------------------------------------------
+// also-known-as
+
+//@ func validate(uris) (err)
+//@   pure
+//@   ensures [iff] (err == nil) == ((forall i int :: 0 <= i && i < len(uris) ==> url.Parse(uris[i]).1 == nil) &&
+//@        (forall i int, j int :: 0 <= i && i < j && j < len(uris) ==> url.Parse(uris[i]).0.String() != url.Parse(uris[j]).0.String()))
+//@   loop 0 invariant [all] forall j int :: 0 <= j && j < $k ==> url.Parse(uris[j]).1 == nil
+//@   loop 0 invariant [distinct] forall a int, b int :: 0 <= a && a < b && b < $k ==> url.Parse(uris[a]).0.String() != url.Parse(uris[b]).0.String()
+//@   loop 0 invariant [ids] forall s string :: has(ids, s) == (exists a int :: 0 <= a && a < $k && url.Parse(uris[a]).0.String() == s)
+//@   loop 0 invariant [nonnil] ids != nil
+
+// ---------------------------------------------------------------------------
+// per-action validators (the validator objects are stateless)
+
+//@ func NewReplaceValidator() (v)
+//@   pure
+//@ func NewJSONValidator() (v)
+//@   pure
+//@ func NewAddPublicKeysValidator() (v)
+//@   pure
+//@ func NewRemovePublicKeysValidator() (v)
+//@   pure
+//@ func NewAddServicesValidator() (v)
+//@   pure
+//@ func NewRemoveServicesValidator() (v)
+//@   pure
+//@ func NewAlsoKnownAsValidator() (v)
+//@   pure
+
+//@ func (v *AddPublicKeysValidator) Validate(p) (err)
+//@   pure
+//@   let value, verr := p.GetValue()
+//@   ensures [iff] (err == nil) == (verr == nil && typeis(value, []interface{}) && len(value.([]interface{})) > 0 && validatePublicKeys(document.ParsePublicKeys(value)) == nil)
+
+//@ func (v *RemovePublicKeysValidator) Validate(p) (err)
+//@   pure
+//@   let value, verr := p.GetValue()
+//@   ensures [iff] (err == nil) == (verr == nil && typeis(value, []interface{}) && len(value.([]interface{})) > 0 && validateIds(document.StringArray(value)) == nil)
+
+//@ func (v *AddServicesValidator) Validate(p) (err)
+//@   pure
+//@   let value, verr := p.GetValue()
+//@   ensures [iff] (err == nil) == (verr == nil && typeis(value, []interface{}) && len(value.([]interface{})) > 0 && validateServices(document.ParseServices(value)) == nil)
+
+//@ func (v *RemoveServicesValidator) Validate(p) (err)
+//@   pure
+//@   let value, verr := p.GetValue()
+//@   ensures [iff] (err == nil) == (verr == nil && typeis(value, []interface{}) && len(value.([]interface{})) > 0 && validateIds(document.StringArray(value)) == nil)
+
+//@ func (v *AlsoKnownAsValidator) Validate(p) (err)
+//@   pure
+//@   let action, aerr := p.GetAction()
+//@   let value, verr := p.GetValue()
+//@   ensures [iff] (err == nil) == (aerr == nil && verr == nil && typeis(value, []interface{}) && len(value.([]interface{})) > 0 && validate(document.StringArray(value)) == nil)
+
+// a replace document has only publicKeys / services members, both valid by the same rules
+//@ func (v *ReplaceValidator) Validate(p) (err)
+//@   pure
+//@   let value, verr := p.GetValue()
+//@   let m := value.(map[string]interface{})
+//@   ensures [iff] (err == nil) == (verr == nil && typeis(value, map[string]interface{}) &&
+//@        (forall k string :: has(m, k) ==> k == "services" || k == "publicKeys") &&
+//@        validatePublicKeys(document.ParsePublicKeys(m["publicKeys"])) == nil && validateServices(document.ParseServices(m["services"])) == nil)
+//@   loop 0 invariant forall k string :: visited(k) ==> k == "services" || k == "publicKeys"
+
+// ---------------------------------------------------------------------------
+// dispatch: each action goes to its own validator; nothing else is accepted
 //@ func Validate(p) (err)
+//@   pure
+//@   let action, aerr := p.GetAction()
+//@   ensures [action] aerr != nil ==> err != nil
+//@   ensures [replace] aerr == nil && action == patch.Replace ==> err == NewReplaceValidator().Validate(p)
+//@   ensures [json] aerr == nil && action == patch.JSONPatch ==> err == NewJSONValidator().Validate(p)
+//@   ensures [addkeys] aerr == nil && action == patch.AddPublicKeys ==> err == NewAddPublicKeysValidator().Validate(p)
+//@   ensures [removekeys] aerr == nil && action == patch.RemovePublicKeys ==> err == NewRemovePublicKeysValidator().Validate(p)
+//@   ensures [addservices] aerr == nil && action == patch.AddServiceEndpoints ==> err == NewAddServicesValidator().Validate(p)
+//@   ensures [removeservices] aerr == nil && action == patch.RemoveServiceEndpoints ==> err == NewRemoveServicesValidator().Validate(p)
+//@   ensures [aka] aerr == nil && (action == patch.AddAlsoKnownAs || action == patch.RemoveAlsoKnownAs) ==> err == NewAlsoKnownAsValidator().Validate(p)
+//@   ensures [other] aerr == nil && action != patch.Replace && action != patch.JSONPatch && action != patch.AddPublicKeys && action != patch.RemovePublicKeys &&
+//@        action != patch.AddServiceEndpoints && action != patch.RemoveServiceEndpoints && action != patch.AddAlsoKnownAs && action != patch.RemoveAlsoKnownAs ==> err != nil
+
+//@ func (v *JSONValidator) Validate(p) (err)
 //@   pure
